@@ -319,7 +319,9 @@ def main(argv=None):
             run_oracle(run, pid, why, short=not needed)
         # a failed obligation whose every counter-model was replayed on the real code and did NOT reproduce there, while the bounded native
         # oracle finds no failing input either, is an unestablished proof step (brittle contract / abstraction), not a violation:
-        # the bounded stand-in decides this run and the evidence says so.  Failed obligations that could not be replayed stay violations.
+        # the bounded stand-in decides this run and the evidence says so.  The same holds for a failed obligation whose counter-model could not
+        # be executed natively (tools/replay_audit.py keeps that set small: spec-level lemmas, trx_ctrl_cmd, socket read errors); when no oracle
+        # can run, a failed obligation is reported as VIOLATION ... no-failing-input-found.
         unconfirmed = [v for v in run.violations if not v["confirmed"]]
         orc_ = run.oracle or {}
         oracle_clean = run.oracle is not None and not orc_.get("missing") and not orc_.get("crash") and not orc_.get("failures")
